@@ -686,13 +686,14 @@ where
         
         hash_map.clear();
         
-        // Reset all nodes and add to free list
+        // Reset all nodes and rebuild the free list from EVERY node: nodes that were
+        // already free must stay available, otherwise each clear() shrinks the usable capacity
         free_nodes.clear();
         for (i, node) in nodes.iter_mut().enumerate() {
             if node.is_valid {
                 node.reset();
-                free_nodes.push(i as u32);
             }
+            free_nodes.push(i as u32);
         }
         
         // Reset LRU list
